@@ -125,6 +125,7 @@ struct Shm {
     char samples[6][6000];
     uint8_t bm[3][BM_BITS / 8];     // 0: nontrivial (plan shape, interleaving); 1: all shapes; 2: model states
 };
+int g_tier = 0;
 static Shm *g_shm = nullptr;
 static int g_slot = MAXW;           // which RunShm/WorkerShm this process writes
 static uint64_t g_local_trace = 0;
@@ -392,6 +393,7 @@ int sim_main(int argc, char **argv, World &w) {
     g_shm = (Shm *)mmap(nullptr, sizeof(Shm), PROT_READ | PROT_WRITE, MAP_SHARED | MAP_ANONYMOUS | MAP_NORESERVE, -1, 0);
     if (g_shm == MAP_FAILED) { perror("mmap"); return 2; }
     g_errdir = arg(argc, argv, "--errdir", "/dev/null");
+    g_tier = arg(argc, argv, "--tier", "quick") == "thorough" ? 1 : 0;
     std::string rp = arg(argc, argv, "--replay", "");
     if (!rp.empty()) return do_replay(w, rp, false, arg(argc, argv, "--expect-class", ""), arg(argc, argv, "--expect-hash", ""));
 
@@ -427,7 +429,7 @@ int sim_main(int argc, char **argv, World &w) {
         close(fd[1]); wp[me].pid = pid; wp[me].fd = fd[0]; wp[me].buf.clear(); wp[me].done = false; wp[me].killed = false;
     };
     for (int i = 0; i < W; i++) spawn(i, i);
-    std::vector<RawViol> raw; int infra = 0; std::vector<std::string> infra_msgs;
+    std::vector<RawViol> raw; std::map<std::string, int> tainted_seen; int infra = 0; std::vector<std::string> infra_msgs;
     int live = W; double last_progress[MAXW]; uint64_t last_cur[MAXW]; for (int i = 0; i < W; i++) { last_progress[i] = now_s(); last_cur[i] = ~0ull; }
     while (live > 0) {
         struct pollfd pf[MAXW]; int map[MAXW], n = 0;
@@ -442,7 +444,7 @@ int sim_main(int argc, char **argv, World &w) {
                 while ((nl = wp[i].buf.find('\n')) != std::string::npos) {
                     std::string line = wp[i].buf.substr(0, nl); wp[i].buf.erase(0, nl + 1);
                     if (line == "D") wp[i].done = true;
-                    else if (line[0] == 'V') { std::istringstream is(line.substr(2)); RawViol v; is >> v.idx >> v.cls >> v.taint; if (v.taint == "-") v.taint = ""; raw.push_back(v); }
+                    else if (line[0] == 'V') { std::istringstream is(line.substr(2)); RawViol v; is >> v.idx >> v.cls >> v.taint; if (v.taint == "-") v.taint = ""; if (v.taint.empty() || ++tainted_seen[v.cls + "|" + v.taint] <= 40) raw.push_back(v); }
                 }
                 if (r <= 0) {   // EOF: worker finished or died
                     close(wp[i].fd); wp[i].fd = -1; int st = 0; waitpid(wp[i].pid, &st, 0);
@@ -463,7 +465,7 @@ int sim_main(int argc, char **argv, World &w) {
             else if (now_s() - last_progress[i] > 20 && g_shm->w[i].started == 1) { wp[i].killed = true; kill(wp[i].pid, SIGKILL); last_progress[i] = now_s(); }
         }
         size_t untainted = 0; for (auto &v : raw) if (v.taint.empty()) untainted++;
-        if (untainted >= 48 || raw.size() >= 4000) g_shm->stop = 1;   // known-finding (tainted) reports are capped per worker and key, they do not end the batch
+        if (untainted >= 48) g_shm->stop = 1;   // reports that carry a taint (candidates for known findings) never end the batch; they are thinned out below
     }
     double t_batch = now_s() - t0;
 
